@@ -128,9 +128,18 @@ def flow_case(rng, calc, ctl, rel):
 def br_case(rng, strat):
     res = name(rng, "a")
     ops = ["sys.total"]
+    ivl = pick(rng, [0, 1, 7, 1000, 600000, U32], [1000, 1000, 10000])
+    buckets = rng.choice([0, 1, 2, 3, 7, 10, 1000, 2000, U32])
+    if rng.random() < 0.4:
+        # a bucket count that divides the interval, of any size up to the interval itself: every such window is constructible
+        # (br_counter_constructible); seed C15-f capped the count after the divisibility test
+        ivl = rng.choice([1500, 2500, 4500, 7000, 10010, 65536, 1001, 9999])
+        divs = [d for d in range(1, ivl + 1) if ivl % d == 0]
+        big = [d for d in divs if d > 1000]
+        buckets = rng.choice(big) if big and rng.random() < 0.6 else rng.choice(divs[len(divs) // 2:] + [ivl])
     r = "rule fam=br id=r1 res=%s strat=%s retry=%d minreq=%d ivl=%d buckets=%d maxrt=%d thr=%s" % (
-        res, strat, rng.choice([0, 1, 1000, 1000, U32]), rng.choice([0, 1, 5, 1000000]), pick(rng, [0, 1, 7, 1000, 600000, U32], [1000, 1000, 10000]),
-        rng.choice([0, 1, 2, 3, 7, 10, 1000, 2000, U32]), rng.choice([0, 1, 50, U32]), pick(rng, THR_F, ["0", "1/2", "1", "5", "7/3"]))
+        res, strat, rng.choice([0, 1, 1000, 1000, U32]), rng.choice([0, 1, 5, 1000000]), ivl,
+        buckets, rng.choice([0, 1, 50, U32]), pick(rng, THR_F, ["0", "1/2", "1", "5", "7/3"]))
     ops.append(r)
     ops += via_ops(rng, "br", "r1", res)
     target = "a" if res == "-" else res
